@@ -50,7 +50,10 @@ fn main() {
         Some("worker") => worker_main(&args[1..]),
         Some("replay1") => replay1_main(&args[1..]),
         Some("explore") => dev_explore(&args[1..]),
-        Some("check") => std::process::exit(check::check_main(&args[1..], &exe())),
+        Some("check") => {
+            let rc = check::check_main(&args[1..], &exe());
+            std::process::exit(rc)
+        }
         Some("replay") => std::process::exit(check::replay_main(&args[1], &exe())),
         Some("selftest") => std::process::exit(selftest::selftest_main(&exe(), args.iter().any(|a| a == "thorough"))),
         Some("plan") => {
